@@ -50,9 +50,13 @@ fn observe(rec: &CallRecord, to_module_repr: &dyn Fn(&Value) -> Value) -> Obs {
     let mut port = 0u64;
     let mut ports_differ = false;
     let mut reqs = Vec::new();
+    let mut ports: Vec<u16> = Vec::new();
     for e in &rec.events {
         match e {
             hook::Event::Open { addr, .. } => {
+                if !ports.contains(&addr.port()) {
+                    ports.push(addr.port());
+                }
                 if port != 0 && port != addr.port() as u64 {
                     ports_differ = true;
                 }
@@ -81,7 +85,7 @@ fn observe(rec: &CallRecord, to_module_repr: &dyn Fn(&Value) -> Value) -> Obs {
         port: if ports_differ { 1 } else { port },
         reqs: format!("{}:{:016x}", reqs.len(), hash_of(&reqs)),
         res,
-        detail: json!({"result": detail, "requests": reqs}),
+        detail: json!({"result": detail, "requests": reqs, "ports": ports}),
     }
 }
 
@@ -334,7 +338,9 @@ pub fn replay(fctx: &fuzz::Ctx, seed: u64, reps: usize, rep: &mut Report, trace:
             let want_port = given.unwrap_or(game.default_port) as u64;
             let mut bad: Option<String> = None;
             for (p, o) in &obs {
-                if o.port != 0 && o.port != want_port {
+                if o.port == 1 {
+                    bad = Some(format!("{id}: {p} path opens sockets to different ports {} where one destination ({want_port}) is prescribed", o.detail["ports"]));
+                } else if o.port != 0 && o.port != want_port {
                     bad = Some(format!("{id}: {p} path goes to port {} instead of {}", o.port, want_port));
                 }
             }
